@@ -1,6 +1,6 @@
 (* Properties_C07.v — obligations of property C07 (progressive correction only ever improves a
    character cell). *)
-Require Import ObsRun Lemmas_TextProps.
+Require Import ObsRun Lemmas_TextProps Lemmas_Prog.
 Local Open Scope Z_scope.
 
 (* one reception under progressive correction: the level of the cell never rises, and if the cell
@@ -42,9 +42,36 @@ Proof.
 Qed.
 Print Assumptions C07_ps_levels_never_rise.
 
-(* PARTIAL: the convergence statement ("a string whose every cell is eventually received error-free
-   converges to that string") is not proved as a theorem over histories; it follows informally from
-   C07_error_free_sticky + C02_error_free_cell.  The per-step observer obs_C07 for all three texts
-   is evaluated on the model (Example) and on the library (check). *)
+(* the same for PTYN, and for each RT buffer between resets (clear / init / an A/B switch that
+   empties it) *)
+Theorem C07_ptyn_levels_never_rise : forall conv lut g s, Inv conv s -> wf_group g -> prog s PTYN = true ->
+  forall i, snd (nth i (cells (ptyn (fst (process conv lut g s)))) (0, 0)) <= snd (nth i (cells (ptyn s)) (0, 0)).
+Proof. exact ptyn_levels_never_rise. Qed.
+Print Assumptions C07_ptyn_levels_never_rise.
+
+Theorem C07_rt_levels_never_rise : forall conv lut g s, Inv conv s -> wf_group g -> b_group (gb g) = 2 -> prog s RT = true ->
+  let f := b_rtflag (gb g) in
+  ((eb g =? 0) && negb (f =? last_rt s) && negb (last_rt s =? -1) && string_available (rt_of f s)) = false ->
+  forall i, snd (nth i (cells (rt_of f (fst (process conv lut g s)))) (0, 0)) <= snd (nth i (cells (rt_of f s)) (0, 0)).
+Proof. exact rt_levels_never_rise. Qed.
+Print Assumptions C07_rt_levels_never_rise.
+
+(* CONVERGENCE.  Feed ANY stream of groups (any types, any error codes, any interleaving) to a
+   parser whose PS is progressive.  If the error-free receptions are consistent with a target text
+   tgt (every storable byte an error-free type-0 group delivers for cell i converts to tgt i), then
+   every cell that already holds its target at level 0, or is delivered error-free at least once in
+   the stream, holds (tgt i, level 0) at the end — regardless of the corrected receptions
+   interleaved before or after. *)
+Theorem C07_ps_converges : forall conv lut tgt gs s, Inv conv s -> prog s PS = true ->
+  Forall wf_group gs -> Forall (consistent conv tgt) gs ->
+  forall i, (i < 8)%nat ->
+  (nth i (cells (ps s)) (0, 0) = (tgt i, 0) \/ existsb (fun g => delivers g i) gs = true) ->
+  nth i (cells (ps (feed conv lut s gs))) (0, 0) = (tgt i, 0).
+Proof. exact ps_converges. Qed.
+Print Assumptions C07_ps_converges.
+
+(* the convergence theorem is stated for PS; PTYN and RT behave alike through C06_ptyn / C06_rt and
+   C07_reception (not restated).  The per-step observer obs_C07 for all three texts is evaluated on
+   the model (Example) and on the library (check). *)
 Example C07_scenario : check_run_u (observer_u 7) scenario = true.
 Proof. vm_compute. reflexivity. Qed.
